@@ -8,6 +8,7 @@ pub trait DynMap {
     fn put(&mut self, k: &[u8], v: &[u8]) -> std::io::Result<()>;
     fn get(&mut self, k: &[u8]) -> std::io::Result<Option<Vec<u8>>>;
     fn del(&mut self, k: &[u8]) -> std::io::Result<Option<Vec<u8>>>;
+    fn has(&mut self, k: &[u8]) -> std::io::Result<bool>;
     fn len(&self) -> std::io::Result<u64>;
     fn flush(&mut self) -> std::io::Result<()>;
     fn all(&self) -> Vec<(Vec<u8>, Vec<u8>)>;
@@ -23,6 +24,9 @@ impl<K: Kt> DynMap for FileDbMap<K> {
     }
     fn del(&mut self, k: &[u8]) -> std::io::Result<Option<Vec<u8>>> {
         DbXxx::delete(self, k)
+    }
+    fn has(&mut self, k: &[u8]) -> std::io::Result<bool> {
+        DbXxx::includes_key(self, k)
     }
     fn len(&self) -> std::io::Result<u64> {
         DbXxxBase::len(self)
@@ -149,7 +153,76 @@ fn one_run(a: &Args, rng: &mut Rng, ctx: &mut Ctx, n_ops: usize) -> Result<(), S
             let k = m.keys[rng.below(m.keys.len() as u64) as usize].clone();
             let name = m.name.clone();
             let r: Result<(), String> = (|| {
-                match rng.below(10) {
+                let nh = m.handles.len();
+                let pick = if nh >= 2 { rng.below(12) } else { rng.below(10) };
+                // a second handle different from the first one (directed scenarios)
+                let o2 = if nh >= 2 { (hi + 1 + rng.below(nh as u64 - 1) as usize) % nh } else { hi };
+                match pick {
+                    10 => {
+                        // a lookup through A, a delete through B, the same lookup through A again: whatever A remembers
+                        // from its own lookup must not survive B's delete (the empty key is preferred: a freed key
+                        // record reads back as an empty key)
+                        let k = if rng.chance(1, 2) && m.keys.iter().any(|x| x.is_empty()) { Vec::new() } else { k.clone() };
+                        if !m.model.contains_key(&k) {
+                            let v = crate::util::gen_bytes(*rng.pick(&[0usize, 5, 15, 1100]), 7, 0);
+                            call(|| m.handles[o2].0.put(&k, &v), "put")?;
+                            m.model.insert(k.clone(), v);
+                        }
+                        let by_has = rng.chance(1, 2);
+                        if by_has {
+                            if !call(|| m.handles[hi].0.has(&k), "includes_key")? {
+                                return Err(format!("map {name}: includes_key({}) through handle #{hi} is false for a stored key", crate::util::show_bytes(&k)));
+                            }
+                        } else if call(|| m.handles[hi].0.get(&k), "get")? != m.model.get(&k).cloned() {
+                            return Err(format!("map {name}: get({}) through handle #{hi} differs from its own model", crate::util::show_bytes(&k)));
+                        }
+                        let got = call(|| m.handles[o2].0.del(&k), "delete")?;
+                        if got != m.model.remove(&k) {
+                            return Err(format!("map {name}: delete through handle #{o2} returned something else than its own model holds"));
+                        }
+                        // through the deleting handle first: a failure there is not an aliasing matter
+                        if call(|| m.handles[o2].0.has(&k), "includes_key")? || call(|| m.handles[o2].0.get(&k), "get")?.is_some() {
+                            return Err(format!("FOREIGN map {name}: key still present through the deleting handle"));
+                        }
+                        let via_a = guarded(crate::session::STEP_BUDGET_BASE, || {
+                            let h = m.handles[hi].0.has(&k)?;
+                            let g = m.handles[hi].0.get(&k)?;
+                            Ok::<_, std::io::Error>((h, g))
+                        });
+                        match via_a {
+                            Guard::Ok(Ok((false, None))) => {}
+                            Guard::Ok(Ok((h, g))) => {
+                                return Err(format!("map {name}: key {} was looked up through handle #{hi} ({}), deleted through handle #{o2} ({}), and handle #{hi} still answers includes_key={h} get={:?}", crate::util::show_bytes(&k), m.handles[hi].1, m.handles[o2].1, g.map(|g| crate::util::show_bytes(&g))));
+                            }
+                            Guard::Ok(Err(e)) => return Err(format!("map {name}: after a delete through handle #{o2} the lookup of the deleted key through handle #{hi} fails ({e}) while the same lookup through #{o2} answers 'absent'")),
+                            Guard::Hang(e) | Guard::Panic(e) => return Err(format!("map {name}: after a delete through handle #{o2} the lookup of the deleted key through handle #{hi} dies ({e}) while the same lookup through #{o2} answers 'absent'")),
+                        }
+                        ctx.count("directed.lookup_delete_lookup", 1);
+                    }
+                    11 => {
+                        // A stores (k,V); B overwrites or deletes k; A stores exactly (k,V) again: it must be stored again
+                        let v = crate::util::gen_bytes(*rng.pick(&[1100usize, 5000, 1024, 300, 15]), 3, 0);
+                        let w = crate::util::gen_bytes(*rng.pick(&[1100usize, 20, 5000]), 4, 0);
+                        call(|| m.handles[hi].0.put(&k, &v), "put")?;
+                        if rng.chance(1, 2) {
+                            call(|| m.handles[o2].0.put(&k, &w), "put")?;
+                        } else {
+                            call(|| m.handles[o2].0.del(&k), "delete")?;
+                        }
+                        call(|| m.handles[hi].0.put(&k, &v), "put")?;
+                        m.model.insert(k.clone(), v.clone());
+                        for h in [o2, hi] {
+                            let got = call(|| m.handles[h].0.get(&k), "get")?;
+                            if got.as_ref() != Some(&v) {
+                                return Err(format!("map {name}: handle #{hi} stored a value of {} bytes, handle #{o2} changed the key, handle #{hi} stored the same value again; get through handle #{h} now returns {:?}", v.len(), got.map(|g| crate::util::show_bytes(&g))));
+                            }
+                        }
+                        let l1 = call(|| m.handles[hi].0.len(), "len")?;
+                        if l1 != m.model.len() as u64 {
+                            return Err(format!("map {name}: len() is {l1} after a store/change/store-again sequence over two handles; its own model holds {}", m.model.len()));
+                        }
+                        ctx.count("directed.store_change_store", 1);
+                    }
                     0..=4 => {
                         let v = crate::util::gen_bytes(*rng.pick(&[0usize, 5, 14, 15, 100, 1100, 5000]), rng.next() as u32, 0);
                         call(|| m.handles[hi].0.put(&k, &v), "put")?;
